@@ -299,12 +299,34 @@ func SafeRun(f func() *Result) (r *Result) {
 	return r
 }
 
+// trimStack keeps the frames of a stack trace but drops everything that varies
+// from run to run (goroutine ids, argument words, pc offsets), so that rapid
+// recognises the same failure again while shrinking.
 func trimStack(b []byte) string {
 	lines := strings.Split(string(b), "\n")
-	if len(lines) > 40 {
-		lines = lines[:40]
+	var out []string
+	for _, l := range lines {
+		switch {
+		case strings.HasPrefix(l, "goroutine "):
+			continue
+		case strings.HasPrefix(l, "\t"):
+			if k := strings.Index(l, " +0x"); k > 0 {
+				l = l[:k]
+			}
+		default:
+			if k := strings.LastIndex(l, "("); k > 0 && strings.HasSuffix(l, ")") {
+				l = l[:k]
+			}
+		}
+		if strings.Contains(l, "runtime/debug") || strings.Contains(l, "/pbt.") || strings.Contains(l, "pbt/pbt.go") {
+			continue
+		}
+		out = append(out, l)
+		if len(out) >= 24 {
+			break
+		}
 	}
-	return strings.Join(lines, "\n")
+	return strings.Join(out, "\n")
 }
 
 // Register makes the spec replayable and returns it.
